@@ -4,6 +4,11 @@ scratch copy of /repo and records which checks fire with which keys."""
 import os, sys, json, subprocess, glob, re, tempfile, shutil
 VERIF = os.path.dirname(os.path.dirname(os.path.abspath(__file__)))
 NEEDS = {
+ 'C02-cleanup-wrong-end': 'same change as C03-cleanup-wrong-end found independently for C02: sync_data=false, >16 enacted logs, crash',
+ 'C08-check-after-claim': 'a multitree InsertTree whose root is valid but which has a nested node with more than 255 children: the commit is rejected after value slots were claimed',
+ 'C12-truncate-newest-first': 'at least two logs cleaned in one clean_logs call, both touching the same chunk/entry/header, power loss between the two truncations',
+ 'C13-validator-multipart-guard': 'a checksum-valid record with an INSERT_VALUE for a fixed-size tier whose size word is a multipart marker',
+ 'C15-wait-without-queue-check': 'two log rotations signalled while the commit worker is busy (signals coalesce into one boolean flag)',
  'C01-reindex-progress-reset': 'a second index overflow before the first old index table was fully migrated (two tables queued), then the walk of the second table',
  'C05-btree-log-lock-per-fetch': 'a reader thread walking a btree column racing the log worker publishing a record that splits/merges/frees nodes',
  'C14-init-before-replay': 'same change as C10-init-before-replay found independently for C14: crash with a flushed, un-enacted tree commit; further tree inserts/dereferences after recovery',
@@ -28,6 +33,11 @@ NEEDS = {
  'C07-skip-set-if-present': 'three queued commits Set(k) / Dereference(k) to zero / Set(k); read after the first two were processed',
 }
 ORIGIN = {
+ 'C02-cleanup-wrong-end': 'same rule as C03-cleanup-wrong-end (existed when this seed arrived)',
+ 'C08-check-after-claim': 'rules existed before the seed (C08 K6b effect-before-error gives a new unlisted key; C10 narrowing-cast guard)',
+ 'C12-truncate-newest-first': 'rule added after this seed exposed the gap (entries drained from a FIFO queue are processed in queue order)',
+ 'C13-validator-multipart-guard': 'first caught by a brittle call-profile comparison (C13.3g) that a behaviour-preserving refactoring would also trip; replaced by the sibling guard rule 3g2 (is_multi only under self.multipart on both sides)',
+ 'C15-wait-without-queue-check': 'rule added after this seed exposed the gap (the commit worker sleeps only after looking at the hand-over queue)',
  'C01-reindex-progress-reset': 'rule added after this seed exposed the gap (progress counter reset whenever the queue front changes); found for C01, detected by C09',
  'C05-btree-log-lock-per-fetch': 'rule added after this seed exposed the gap (log-overlay read guard held across the btree walk)',
  'C14-init-before-replay': 'same rule as C10-init-before-replay (existed when this seed arrived); obligation also attached to C14 afterwards',
